@@ -404,6 +404,22 @@ def clause_reorg_order(R, F):
         t = [a for a in fm.lin.terms if _role_dreorg(a) == "max"][0]
         R.ob(mentions(t, "db_global_values") and mentions(t, "MAX_BLOCK_NUMBER_KEY"), "WIRE", "%s:%s" % (fn.loc["f"], line),
              "WIRE|D::reorg|max-source", "depth check does not read the recorded maximum (db_global_values[MAX_BLOCK_NUMBER_KEY]): %s" % show(t)[:200])
+    # every other refusal decision of D::reorg is a propagated error of a callee (`?`), not a condition of its own: a reorg
+    # inside the window must be accepted
+    eb = error_blocks(fn)
+    for b2 in range(len(fn.blocks)):
+        t2 = fn.term(b2)
+        if t2["k"] != "switch" or fn.is_cleanup(b2) or (guard and b2 == guard[0]):
+            continue
+        succs = fn.succ(b2)
+        rej = [sx for sx in succs if sx in eb or _leads_to_error_only(fn, sx)]
+        if not rej or len(rej) == len(succs):
+            continue
+        d2 = origin(fn, t2["discr"])
+        if d2[0] == "discr" and mentions(d2, "branch"):
+            continue
+        R.violation("GUARD", "%s:%s" % (fn.loc["f"], t2.get("loc", {}).get("l")), "GUARD|D::reorg|unexpected-refusal",
+                    "D::reorg refuses on a condition the contract does not give (`%s`)" % show(d2)[:90])
 
 
 def clause_reorg_height_last(R, F):
